@@ -368,9 +368,10 @@ def _dimension_clauses():
   from contracts import equivariance_contracts
   from vlib.core import rerun_any_replay
   _rr = rerun_any_replay(run_tendency_sampled, select='explicit')
+  _rs = rerun_any_replay(run_shallow_water)
   out = equivariance_contracts.dimension_clauses()
   for c in out:
-    c.replay = _rr
+    c.replay = _rs if 'shallow' in c.name else _rr
   return out
 
 
